@@ -1,4 +1,5 @@
 import IgrisModel.C12.SoftCore
+import IgrisModel.C12.IeeeLemmas
 /-!
   C12 — the software binary32/binary64 of Model.lean IS round-to-nearest
   arithmetic, part 2: every operation is the exact operation followed by
@@ -28,10 +29,6 @@ theorem finEnc_not_special (f : Fmt) (hf : f.WF) (a : Nat) (h : FinEnc f a) :
 private theorem natCast_pow2_nonneg (m : Nat) (e : Int) : 0 ≤ (m : Rat) * pow2 e :=
   Rat.mul_nonneg (by exact_mod_cast Nat.zero_le m) (Rat.le_of_lt (pow2_pos e))
 
-private theorem rep_nonneg {B : BinFmt} {v : Rat} (h : Rep B v) : 0 ≤ v := by
-  obtain ⟨m, e, -, -, rfl⟩ := h
-  exact natCast_pow2_nonneg m e
-
 theorem finEnc_rep (f : Fmt) (hf : f.WF) (a : Nat) (h : FinEnc f a) :
     (0 ≤ encVal f a → Rep f.bin (encVal f a)) ∧ (encVal f a ≤ 0 → Rep f.bin (-(encVal f a))) := by
   obtain ⟨m, e, hd, hm, he, hv⟩ := fin_dec f hf a h
@@ -53,9 +50,6 @@ private theorem rn_zero (B : BinFmt) : RN B 0 0 := by
 
 private theorem rns_zero (B : BinFmt) : RNs B 0 0 :=
   ⟨fun _ => rn_zero _, fun _ => by simpa using rn_zero B⟩
-
-theorem RN.exact {B : BinFmt} {v r : Rat} (h : RN B v r) (hv : Rep B v) : r = v := by
-  have := h.nearest v hv; grind
 
 theorem RNs.exact {B : BinFmt} {v r : Rat} (h : RNs B v r) (hp : 0 ≤ v → Rep B v)
     (hn : v ≤ 0 → Rep B (-v)) : r = v := by
